@@ -525,10 +525,59 @@ pub fn kick_off(shared: &Arc<Shared>) {
     }
 }
 
+/// State letter of a task from /proc, without allocating: the driver must not touch the
+/// heap while a run is in progress (its allocations would shift the addresses later handed
+/// to the caller threads, and address-keyed hash maps in the library make addresses
+/// visible to the dense build as basic-block edges).
 fn task_state(tid: i32) -> Option<char> {
-    let s = std::fs::read_to_string(format!("/proc/self/task/{}/stat", tid)).ok()?;
-    let close = s.rfind(')')?;
-    s[close + 1..].trim_start().chars().next()
+    let mut path = [0u8; 64];
+    let prefix = b"/proc/self/task/";
+    let mut n = 0;
+    for &b in prefix {
+        path[n] = b;
+        n += 1;
+    }
+    let mut digits = [0u8; 12];
+    let mut d = 0;
+    let mut v = tid.max(0) as u32;
+    if v == 0 {
+        digits[0] = b'0';
+        d = 1;
+    }
+    while v > 0 {
+        digits[d] = b'0' + (v % 10) as u8;
+        v /= 10;
+        d += 1;
+    }
+    while d > 0 {
+        d -= 1;
+        path[n] = digits[d];
+        n += 1;
+    }
+    for &b in b"/stat\0" {
+        path[n] = b;
+        n += 1;
+    }
+    let mut buf = [0u8; 512];
+    // SAFETY: plain open/read/close on a NUL-terminated path and a stack buffer
+    let got = unsafe {
+        let fd = libc::open(path.as_ptr() as *const libc::c_char, libc::O_RDONLY | libc::O_CLOEXEC);
+        if fd < 0 {
+            return None;
+        }
+        let r = libc::read(fd, buf.as_mut_ptr() as *mut libc::c_void, buf.len());
+        libc::close(fd);
+        r
+    };
+    if got <= 0 {
+        return None;
+    }
+    let s = &buf[..got as usize];
+    let close = s.iter().rposition(|&b| b == b')')?;
+    s[close + 1..]
+        .iter()
+        .find(|b| !b.is_ascii_whitespace())
+        .map(|&b| b as char)
 }
 
 /// Driver side: wait until the run is over. Watches the token holder for blocking the
